@@ -26,6 +26,9 @@ CONSTANTS MaxBuilders,     \* builders per session
 Keys == {1, 2}
 Secrets == {1, 2}
 Builder == [kind : {"D", "U"}, key : Keys, secret : Secrets, mode : {"plain", "side"}]
+       \* (generation also uses kinds "Dn" / "Dr": disclosure proofs carrying a non-revocation / a range sub-proof, whose
+       \*  commitments are part of the proof's contribution to the challenge; for this model they behave like "D")
+IsD(b) == b.kind \in {"D", "Dn", "Dr"}
        \* mode "side": for D = discloses attribute 0 ("d0"); for U = extra response on base R_0 ("r0")
 Configs == UNION { [1..k -> Builder] : k \in 1..MaxBuilders }
 Proof(sid, pos, b) == [sid |-> sid, pos |-> pos, b |-> b]
@@ -42,7 +45,7 @@ Chal(p) == <<sess[p.sid].ctx, [i \in 1..Len(bl) |-> <<"commit", p.sid, i>>], ses
 \* contribution of proof p when reconstructed under key k
 Contrib(p, k) == IF k = p.b.key THEN <<"commit", p.sid, p.pos>> ELSE <<"junk", p.sid, p.pos, k>>
 \* the secret-key response r + c*s: shared randomiser of the session, coefficient = the secret the response speaks for
-HasSk(p) == ~(p.b.kind = "D" /\ p.b.mode = "side")
+HasSk(p) == ~(IsD(p.b) /\ p.b.mode = "side")
 SkResp(p) == <<p.sid, p.b.secret>>
 \* the secret the proof is really bound to ("r0": a second exponent on R_0 shifts it)
 Effective(p) == IF p.b.kind = "U" /\ p.b.mode = "side" THEN p.b.secret + 10 ELSE p.b.secret
